@@ -180,3 +180,40 @@ def _(c):
     c.ensures(f"implies(not {known} and (self.has_star or not (isa(unannotate(value), TypedValue) and unannotate(value).typ is tuple)), result is value)", name="unknown_length_is_kept")
     c.ensures(f"implies(not {known}, result is not None)", name="unknown_length_is_never_dropped")
     c.assume("len_of_value(v) = KnownValue(n) only when every instance of v has length n (value.len_of_value, not under contract)")
+
+
+@contract("pyanalyze.stacked_scopes.AndConstraint.make", props=["C02"], kind="assumed")
+def _(c):
+    c.param("cls", "val"); c.param("constraints", "seq")
+    c.returns("val")
+    c.functional = True
+    c.fn_name = "AndConstraint.make"
+    c.ensures("forall(lambda w: holds(result, w) == all(holds(x, w) for x in constraints), 'val')", name="conjunction")
+    c.assume("AndConstraint.make(cs) denotes the conjunction of cs (its absorption rule A AND (A OR B) = A is an equivalence); holds(NULL_CONSTRAINT, w) for every w")
+
+
+@contract("pyanalyze.stacked_scopes.OrConstraint.make", props=["C02"], kind="assumed")
+def _(c):
+    c.param("cls", "val"); c.param("constraints", "seq")
+    c.returns("val")
+    c.functional = True
+    c.fn_name = "OrConstraint.make"
+    c.ensures("forall(lambda w: holds(result, w) == any(holds(x, w) for x in constraints), 'val')", name="disjunction")
+
+
+@contract("pyanalyze.stacked_scopes.extract_constraints", props=["C02"])
+def _(c):
+    c.param("value", "obj:Value")
+    c.returns("val")
+    c.functional = True
+    c.fieldspec("constraint", "val")
+    c.callee("value.get_metadata_of_type", lambda k: (k.param("self", "val"), k.param("t", "val"), k.returns("seq"), setattr(k, "functional", True), setattr(k, "fn_name", "get_metadata_of_type")))
+    c.requires("forall(lambda w: holds(NULL_CONSTRAINT, w), 'val')", name="theory.the_null_constraint_always_holds")
+    # the constraint attached to a value must be implied by that value being truthy: a union is truthy when SOME member is,
+    # so only the disjunction of the members' constraints may be concluded -- a member without a constraint contributes `true`
+    c.ensures("implies(isa(value, MultiValuedValue) and len(value.vals) > 0, forall(lambda w: holds(result, w) == any(holds(extract_constraints(v), w) for v in value.vals), 'val'))",
+              name="a_union_yields_the_disjunction_of_its_members_constraints")
+    c.ensures("implies(isa(value, MultiValuedValue) and len(value.vals) == 0, result is NULL_CONSTRAINT)", name="empty_union_no_constraint")
+    c.ensures("implies(isa(value, AnnotatedValue), forall(lambda w: holds(result, w) == (all(holds(e.constraint, w) for e in value.get_metadata_of_type(ConstraintExtension))"
+              " and holds(extract_constraints(value.value), w)), 'val'))", name="an_annotated_value_yields_the_conjunction_of_its_own_and_its_inner_constraints")
+    c.ensures("implies(not isa(value, MultiValuedValue) and not isa(value, AnnotatedValue), result is NULL_CONSTRAINT)", name="other_values_carry_no_constraint")
